@@ -127,7 +127,7 @@ struct BytesWorld : World {
                 int v = (int)r.below(nv), w = (int)r.below(nv);
                 int64_t fail = faulty && r.chance(1, 7) ? 1 + (int64_t)r.below(2) : 0;
                 int64_t n = r.pickv({0, 1, 2, 3, 15, 16, 17, 31, 32, 33, 48, 100});
-                pl.add("ba", {(int64_t)r.below(20), v, w, n, (int64_t)r.below(256), fail});
+                pl.add("ba", {(int64_t)r.below(21), v, w, n, (int64_t)r.below(256), fail});
                 continue;
             }
 #endif
@@ -298,10 +298,10 @@ struct BytesWorld : World {
 
     void do_ba(Run &run, Pool &p, const Op &op)
     {
-        static const char *names[20] = {"default_construct", "construct_size_value", "copy_construct", "assign", "index_write", "index_read",
+        static const char *names[21] = {"default_construct", "construct_size_value", "copy_construct", "assign", "index_write", "index_read",
                                         "data_write", "resize", "reserve", "push_back", "pop_back", "clear", "compare", "iterate", "destroy",
-                                        "end_write", "begin_write", "end_then_begin_fill", "const_read", "many_copies"};
-        int kind = (int)(op.u(0) % 20);
+                                        "end_write", "begin_write", "end_then_begin_fill", "const_read", "many_copies", "push_back_own_element"};
+        int kind = (int)(op.u(0) % 21);
         int i = (int)(op.u(1) % NVARS), j = (int)(op.u(2) % NVARS);
         size_t n = (size_t)(op.u(3) % 300);
         unsigned char val = (unsigned char)op.u(4);
@@ -390,6 +390,11 @@ struct BytesWorld : World {
                 }
                 if (span != (ptrdiff_t)m.size()) run.violation("C20", "byte_array_equals_vector", "end_then_begin_fill", fmt("end() - begin() = %td for a value of %zu bytes", span, m.size()));
                 else { unsigned char x = val; for (size_t k = 0; k < m.size(); ++k) m[k] = x++; }
+                break; }
+            case 20: if (m.empty()) return; { // the argument refers to an element of the array itself (std::vector guarantees this works)
+                size_t pos = n % m.size();
+                { Track t(fail); const BA &cv = p.v(i); p.v(i).push_back(cv.data()[pos]); }
+                m.push_back(m[pos]);
                 break; }
             case 19: if (m.empty()) return; {
                 // "any number of aliased values": a crowd of copies of one variable, one of them written to, all destroyed
